@@ -590,7 +590,15 @@ func txgBuild(e *txgEnv, s *txgShape, salt string, kg *txgKeyGen) *common.Versio
 			}
 			input := &common.Input{Deposit: d}
 			if in.Kind == txgInDepMint {
+				// mint data wins the classification (TransactionType, LockInputs): the
+				// value created is the mint amount; the deposit data carries a DIFFERENT
+				// amount so that any site that reads it instead becomes visible
 				input.Mint = &common.MintData{Group: "UNIVERSAL", Batch: e.W.MintBatch + 1, Amount: s.InAmt.V}
+				alt := common.NewIntegerFromString("12")
+				if s.InAmt.V.Cmp(alt) == 0 {
+					alt = common.NewIntegerFromString("5")
+				}
+				d.Amount = alt
 			}
 			tx.Inputs = append(tx.Inputs, input)
 		case txgInMint:
@@ -1059,7 +1067,7 @@ func txgOutAlphabet(menus []txgKindMenu) []txgOut {
 // (each against the quick alphabet of the other side).
 func txgC01Blocks(thorough bool, env func(string) *txgEnv) []*txgBlock {
 	am := txgC01Amounts()
-	inAlpha := []txgIn{{txgInRef, "xin5"}, {txgInRef, "xin7"}, {txgInRef, "btc5"}, {txgInRef, "missing"}, {Kind: txgInDup}, {Kind: txgInDeposit}, {Kind: txgInMint}, {Kind: txgInGenesis}}
+	inAlpha := []txgIn{{txgInRef, "xin5"}, {txgInRef, "xin7"}, {txgInRef, "btc5"}, {txgInRef, "missing"}, {Kind: txgInDup}, {Kind: txgInDeposit}, {Kind: txgInMint}, {Kind: txgInGenesis}, {Kind: txgInDepMint}}
 	small := txgOutAlphabet([]txgKindMenu{
 		{common.OutputTypeScript, am},
 		{common.OutputTypeWithdrawalSubmit, txgPickAmounts(am, "5", "12", "2^64u")},
